@@ -56,6 +56,14 @@ def g_token(rng, alphabet="abcxyzABC019-_.", lo=1, hi=8):
     return "".join(rng.choice(alphabet) for _ in range(rng.randrange(lo, hi + 1)))
 
 
+def g_cred(rng, lo):
+    """ice-ufrag (4..256 ice-chars) / ice-pwd (22..256): mostly short, one in five at an edge of the legal range"""
+    if rng.random() < 0.2:
+        n = rng.choice([lo, lo + 1, 255, 256])
+        return "".join(rng.choice(ICE) for _ in range(n))
+    return g_token(rng, ICE, lo, lo + 8)
+
+
 def g_u32(rng):
     return rng.choice([0, 1, 8, 96, 255, 8000, 65535, 65536, U32, U32 - 1, rng.randrange(U32)])
 
@@ -168,7 +176,7 @@ def g_media(rng, session_dir):
          "rm": [{"payload": g_u32(rng), "enc": rng.choice(["PCMU", "opus", "telephone-event", "H264", "x"]), "clock": g_u32(rng),
                  "params": rng.choice([None, None, "2", "1/x y"])} for _ in range(rng.randrange(0, 3))],
          "fm": [{"fmt": g_u32(rng), "params": rng.choice(["0-16", "minptime=10;useinbandfec=1", "a b  c", "profile-level-id=42e01f", "x"])} for _ in range(rng.randrange(0, 3))],
-         "uf": g_token(rng, ICE, 4, 12) if rng.random() < 0.4 else None, "pw": g_token(rng, ICE, 22, 30) if rng.random() < 0.4 else None,
+         "uf": g_cred(rng, 4) if rng.random() < 0.4 else None, "pw": g_cred(rng, 22) if rng.random() < 0.4 else None,
          "cand": [g_cand(rng) for _ in range(rng.randrange(0, 3))], "eoc": rng.random() < 0.3,
          "cr": [g_crypto(rng) for _ in range(rng.randrange(0, 3))], "at": [g_attr(rng) for _ in range(rng.randrange(0, 3))]}
     return m
@@ -181,7 +189,7 @@ def g_session(rng):
          "t": (rng.choice([0, 1, 3034423619, U64]), rng.choice([0, 3042462419, U64])), "dir": sdir,
          "c": g_conn(rng) if rng.random() < 0.6 else None, "b": [g_bw(rng) for _ in range(rng.randrange(0, 3))],
          "io": [g_token(rng, ICE, 1, 8) for _ in range(rng.choice([0, 0, 1, 2, 3]))], "lite": rng.random() < 0.3,
-         "uf": g_token(rng, ICE, 4, 12) if rng.random() < 0.4 else None, "pw": g_token(rng, ICE, 22, 30) if rng.random() < 0.4 else None,
+         "uf": g_cred(rng, 4) if rng.random() < 0.4 else None, "pw": g_cred(rng, 22) if rng.random() < 0.4 else None,
          "at": [g_attr(rng) for _ in range(rng.randrange(0, 3))]}
     s["M"] = [g_media(rng, sdir) for _ in range(rng.choice([0, 1, 1, 2, 3]))]
     return s
